@@ -359,3 +359,26 @@ pub fn minimize(case: &EvalCase, first: crate::core::Issue, fails: &dyn Fn(&Eval
     }
     (best, issue)
 }
+
+/// "parsed from text or built through the public constructors": when the expression lies in the parser's
+/// image, render it with the harness printer, parse it with `Expr::parse` and return that tree.
+pub fn through_text(e: &Expr, bytes: &[u8]) -> Option<Expr> {
+    let mut d = crate::gen::Dec::new(bytes);
+    let toks = crate::model::print::tokens(e, crate::model::print::Mode::Rand, Some(&mut d))?;
+    // names must lex as identifiers
+    fn names_ok(e: &Expr) -> bool {
+        use Expr as E;
+        let ok = |n: &str| !crate::model::lex::is_reserved_spelling(n);
+        (match e {
+            E::Reference(n) | E::Symbol(n) | E::Function(n, _) => ok(n),
+            E::Index(_, reval::expr::Index::Map(k)) => ok(k),
+            E::Map(m) => m.keys().all(|k| ok(k)),
+            _ => true,
+        }) && children(e).iter().all(|c| names_ok(c))
+    }
+    if !names_ok(e) {
+        return None;
+    }
+    let text = crate::model::print::plain_text(&toks);
+    Expr::parse(&text).ok()
+}
